@@ -26,21 +26,26 @@ META = {
     "technique": "TLA+ contract on abstracted task graphs (denotation, key disjointness, ancestry = happens-before); TLC checks a reference "
                  "transcription on all small configurations and decides records of real clone/bind/wait_on/checkpoint calls, incl. event "
                  "logs of adversarially scheduled executions",
-    "level_text": "TLC enumerates all configurations of 3 collections (thorough: also 4, without bind) in a dependency DAG x {clone, bind, wait_on, checkpoint} "
-                  "x children/parents/omit subsets and proves the contract clauses for the reference transcription (and their violation "
-                  "for the transcription that leaves task objects unsubstituted). Every configuration (thorough: a seeded sample of the "
-                  "4-collection ones) is instantiated with real dask collections of 4 kinds (delayed trees with Task objects, delayed "
-                  "trees with legacy tuples, bags, arrays; <= 40 tasks), random seed / assume_layers / split_every; graphs before/after "
-                  "are materialized, abstracted to expressions and decided by TLC (Denotes, Disjoint, Regenerated, HappensBefore), the "
-                  "results are computed and compared, and the result graph is run under the controlled executor with an adversarial "
-                  "schedule whose start/finish log TLC checks (Order).",
+    "level_text": "TLC enumerates all configurations of 3 collections (thorough: also 4, without bind) in a dependency DAG x {clone, bind, wait_on, "
+                  "checkpoint} x children/parents/omit subsets, plus configurations with TWO calls that share a member collection (one "
+                  "collection in two wait_on / checkpoint groups, one child bound to two different parents, two clones with different seeds) "
+                  "whose results are used in one graph, and proves the contract clauses for the reference transcription in the joint graph "
+                  "(and their violation for the transcription that leaves task objects unsubstituted). The configurations (quick: all double "
+                  "ones up to 500 and a seeded sample of the single ones, 1000 in total; thorough: all of the 3-collection ones and a sample of "
+                  "the 4-collection ones) are instantiated with real dask collections of 6 kinds (delayed trees with Task objects and declared "
+                  "lengths, delayed trees with legacy tuples incl. list / dict arguments, bags, 1-d arrays, 2-d arrays through creation / "
+                  "transposed / new-axis / contraction / reduction layers, arrays whose Blockwise layers take Delayed arguments), random seed / "
+                  "assume_layers / split_every / partitions / nesting of the arguments; the graphs before/after (the JOINT graph of all results) "
+                  "are materialized, abstracted to expressions and decided by TLC (Denotes, Disjoint, Regenerated, HappensBefore per call), "
+                  "the results are computed together and compared (values, type / keys-shape / metadata, seed determinism), and the joint "
+                  "result graph is run under the controlled executor with an adversarial schedule whose start/finish log TLC checks (Order).",
     "level_note": "Trusted: TLC, the abstraction of tasks to expressions (function names + literal digests; chunks.bind / chunks.checkpoint "
                   "are the only interpreted functions), the controlled executor (harness/sched.py). Happens-before is decided by graph "
                   "ancestry (sound for every schedule by C02) plus one adversarial schedule per case, not all schedules. Dataframes and "
                   "third-party collections are not covered; distributed is absent.",
 }
 
-KINDS = ("delayed", "legacy", "bag", "array")
+KINDS = ("delayed", "legacy", "bag", "array", "array2", "array_delayed")
 
 
 # --------------------------------------------------------------------------- real collections for a configuration
@@ -52,7 +57,9 @@ def make_colls(case, kind, parts=2):
         deps = [colls[d - 1] for d in deps_idx]
         f = Fn("f%d" % i)
         if kind == "delayed":
-            c = dask.delayed(f)(*deps) if deps else dask.delayed(f)(7)
+            # every third collection has a declared length (delayed(f, nout=n)): metadata the result must keep
+            df = dask.delayed(f, nout=(i % 3) or None)
+            c = df(*deps) if deps else df(7)
         elif kind == "legacy":
             from dask.base import tokenize
             from dask.delayed import Delayed
@@ -61,7 +68,8 @@ def make_colls(case, kind, parts=2):
             name = "leg%d-%s" % (i, tokenize(uuid.uuid4().hex))
             task = (f,) + tuple(d.key for d in deps) if deps else (f, 7)
             if len(deps) == 2:
-                task = (f, deps[0].key, [deps[1].key, 7])         # a key inside a list argument
+                # a key inside a list argument / inside a dict argument
+                task = (f, deps[0].key, [deps[1].key, 7]) if i % 2 else (f, {"a": deps[0].key, "b": [deps[1].key]}, 7)
             c = Delayed(name, HighLevelGraph.from_collections(name, {name: task}, dependencies=deps))
         elif kind == "bag":
             import dask.bag as db
@@ -79,10 +87,113 @@ def make_colls(case, kind, parts=2):
                 c = c + i
             else:
                 c = da.from_array(np.arange(2 * parts) + 10 * i, chunks=2) + i
+        elif kind == "array_delayed":
+            # Blockwise layers with NON-array arguments: odd leaves are Delayed scalars, every other collection is an
+            # array computed by map_blocks / blockwise from its array dependencies and its Delayed dependencies
+            import dask.array as da
+            import numpy as np
+            from dask.delayed import Delayed
+            arrs = [d for d in deps if not isinstance(d, Delayed)]
+            dels = [d for d in deps if isinstance(d, Delayed)]
+            if not deps and i % 2:
+                c = dask.delayed(_scalar)(10 * i)
+            elif not deps:
+                c = da.from_array(np.arange(2 * parts) + 10 * i, chunks=2) + i
+            else:
+                base = arrs[0] if arrs else da.from_array(np.arange(2 * parts) + 10 * i, chunks=2)
+                if i % 2 or not dels:
+                    c = da.map_blocks(_addall, base, *arrs[1:], *dels, dtype=base.dtype) * (i + 1)
+                else:
+                    args = []
+                    for a in arrs[1:]:
+                        args += [a, "i"]
+                    for d in dels:
+                        args += [d, None]
+                    c = da.blockwise(_addall, "i", base, "i", *args, dtype=base.dtype) + i
+        elif kind == "array2":
+            # 2-d arrays through the other Blockwise paths: creation layers (io_deps), transposed indices,
+            # reductions (tree of non-Blockwise layers), broadcasting of a 0-d / keepdims result
+            import dask.array as da
+            import numpy as np
+            if not deps:
+                if i % 2:
+                    c = da.ones((2 * parts, 2), chunks=(2, 1)) * (10 * i)
+                else:
+                    c = da.from_array(np.arange(4 * parts).reshape(2 * parts, 2) + 10 * i, chunks=(2, 2)) + i
+            elif len(deps) == 1:
+                d = deps[0]
+                wide = da.map_blocks(_add_axis, d, new_axis=2, chunks=d.chunks + ((1,),), dtype=d.dtype)     # new_axes
+                c = d.T.T * (i + 1) + d.sum(axis=0, keepdims=True) + wide.sum(axis=2)
+            else:
+                prod = da.matmul(deps[0], deps[1].T)                                               # contraction (concatenate)
+                c = deps[0] + deps[1].T.T + deps[1].max() + prod.sum(axis=1, keepdims=True)
         else:
             raise ValueError(kind)
         colls.append(c)
     return colls
+
+
+def _scalar(x):
+    return x
+
+
+def _addall(block, *others):
+    out = block
+    for o in others:
+        out = out + o
+    return out
+
+
+def _add_axis(block):
+    return block[:, :, None]
+
+
+def meta_sig(coll):
+    """Type, shape of __dask_keys__ and the metadata a manipulated collection must keep (names excluded)."""
+    def shape(keys):
+        return [shape(k) for k in keys] if isinstance(keys, list) else 0
+    mod = type(coll).__module__
+    if mod.startswith("dask.array"):
+        md = [list(coll.shape), str(coll.dtype), [list(c) for c in coll.chunks]]
+    elif mod.startswith("dask.bag"):
+        md = [getattr(coll, "npartitions", None)]
+    elif mod.startswith("dask.delayed"):
+        try:
+            n = len(coll)
+        except TypeError:
+            n = "no length"
+        try:
+            parts = len([x for x in coll])
+        except TypeError:
+            parts = "not iterable"
+        md = [n, parts]
+    else:
+        md = []
+    return [type(coll).__name__ if not mod.startswith("dask.delayed") else "Delayed", shape(coll.__dask_keys__()), md]
+
+
+def nest(colls, how):
+    """The collections as the (possibly nested) argument structure handed to the function."""
+    if how == 0 or not colls:
+        return list(colls)
+    if how == 1:
+        return [{"a": colls[0], "rest": list(colls[1:])}]
+    return [(colls[0],)] + [[c] for c in colls[1:]]
+
+
+def unnest(obj, acc=None):
+    """Collections of a returned structure in traversal order."""
+    from dask.base import is_dask_collection
+    acc = [] if acc is None else acc
+    if is_dask_collection(obj):
+        acc.append(obj)
+    elif isinstance(obj, dict):
+        for v in obj.values():
+            unnest(v, acc)
+    elif isinstance(obj, (list, tuple)):
+        for v in obj:
+            unnest(v, acc)
+    return acc
 
 
 # --------------------------------------------------------------------------- abstraction of materialized graphs
@@ -142,6 +253,9 @@ def abstract(v, universe, kid):
             return {"t": "call", "f": fname(x[0]), "a": [walk(a) for a in x[1:]]}
         if type(x) is list:
             return {"t": "list", "a": [walk(a) for a in x]}
+        if type(x) is dict and x:
+            ks = sorted(x, key=repr)
+            return {"t": "call", "f": "dict:" + ",".join(repr(k)[:20] for k in ks), "a": [walk(x[k]) for k in ks]}
         try:
             if x in universe:
                 return ref(x)
@@ -227,14 +341,15 @@ def controlled_run(g2, out2, waiters, nworkers=3):
 
 
 # --------------------------------------------------------------------------- one case
-def run_case(case, kind, seed, assume_layers, split_every, parts=2):
+def run_case(case, kind, seed, assume_layers, split_every, parts=2, nesting=0):
     """Instantiate, call the real function, observe.  Returns the record for TLC (without id)."""
     import dask
     from dask import graph_manipulation as GM
     from dask._task_spec import GraphNode
     op = case["op"]
-    rec = {"op": op, "g": [], "g2": [], "out": [], "out2": [], "omitout": [], "keep": [], "parents": [],
-           "obs": {"raised": "", "same": False, "events": []}, "msg": "", "taskobj": False, "blockwise": False, "stage": ""}
+    rec = {"op": op, "g": [], "g2": [], "ms": [],
+           "obs": {"raised": "", "same": False, "meta": True, "seed": True, "events": []}, "msg": "", "taskobj": False, "blockwise": False,
+           "stage": ""}
     with warnings.catch_warnings():
         warnings.simplefilter("ignore")
         colls = make_colls(case, kind, parts)
@@ -254,20 +369,48 @@ def run_case(case, kind, seed, assume_layers, split_every, parts=2):
         out = flat_keys(children)
         try:
             rec["stage"] = "call"
-            if op == "clone":
-                res = GM.clone(*children, omit=omit or None, seed=seed, assume_layers=assume_layers)
-                res = [res] if len(children) == 1 else list(res)
-            elif op == "bind":
-                res = GM.bind(tuple(children), parents, omit=omit or None, seed=seed, assume_layers=assume_layers, split_every=split_every)
-                res = list(res)
-            elif op == "wait_on":
-                res = GM.wait_on(*children, split_every=split_every)
-                res = [res] if len(children) == 1 else list(res)
-            else:
-                res = [GM.checkpoint(*children, split_every=split_every)]
+            def call(sd):
+                ch = nest(children, nesting)
+                om = (nest(omit, nesting) if nesting else omit) or None
+                if op == "clone":
+                    r = GM.clone(*ch, omit=om, seed=sd, assume_layers=assume_layers)
+                    return unnest(r)
+                if op == "bind":
+                    pa = {"p": parents} if nesting == 1 else parents
+                    return unnest(GM.bind(tuple(ch), pa, omit=om, seed=sd, assume_layers=assume_layers, split_every=split_every))
+                if op == "wait_on":
+                    return unnest(GM.wait_on(*ch, split_every=split_every))
+                return [GM.checkpoint(*ch, split_every=split_every)]
+            res = call(seed)
+            if op in ("clone", "bind"):
+                # the seed: the same seed regenerates the same keys, another seed (or none) other keys
+                k1 = flat_keys(res)
+                same = flat_keys(call(seed)) if seed is not None else k1
+                other = flat_keys(call("another seed" if seed is not None else None))
+                rec["obs"]["seed"] = same == k1 and not (set(other) & (set(k1) - set(flat_keys(omit))))
+            groups = [(children, parents, res)]
+            second = [colls[i - 1] for i in case.get("second", [])]
+            if second:
+                # a second call that shares a member with the first; both results are used in one graph
+                first_children, first_parents = children, parents
+                if op == "bind":
+                    parents = second
+                elif op != "clone":
+                    children = second
+                res2 = call("second seed" if seed is not None else None)
+                groups.append((children, parents, res2))
+                children, parents = first_children, first_parents
+            metas = []
+            for ch_, pa_, rs_ in groups:
+                if op != "checkpoint":
+                    metas.append(len(rs_) == len(ch_) and all(meta_sig(a) == meta_sig(b) for a, b in zip(rs_, ch_)))
+                else:
+                    metas.append(meta_sig(rs_[0])[0] == "Delayed" and meta_sig(rs_[0])[2] == ["no length", "not iterable"])
+            rec["obs"]["meta"] = all(metas)
             rec["stage"] = "materialize"
-            g2 = materialize(res)
-            out2 = flat_keys(res)
+            allres = [r for _, _, rs_ in groups for r in rs_]
+            g2 = materialize(allres)                      # the joint graph, merged the way one dask.compute merges it
+            out2 = flat_keys(allres)
         except Exception as ex:  # noqa: BLE001 - an exception of dask is an observation
             rec["obs"]["raised"] = type(ex).__name__
             rec["msg"] = "%s: %s" % (rec["stage"], str(ex)[:150])
@@ -277,21 +420,22 @@ def run_case(case, kind, seed, assume_layers, split_every, parts=2):
         kid = lambda k: names.setdefault(k, "k%d" % (len(names) + 1))
         rec["g"] = [{"k": kid(k), "e": abstract(v, universe, kid)} for k, v in g.items()]
         rec["g2"] = [{"k": kid(k), "e": abstract(v, universe, kid)} for k, v in g2.items()]
-        rec["out"] = [kid(k) for k in out]
-        rec["out2"] = [kid(k) for k in out2]
-        rec["omitout"] = [kid(k) for k in flat_keys(omit)]
-        rec["parents"] = [kid(k) for k in flat_keys(parents)]
-        rec["keep"] = rec["omitout"] + (rec["parents"] if op == "bind" else [])
+        omitout = [kid(k) for k in flat_keys(omit)]
+        rec["ms"] = []
+        for ch_, pa_, rs_ in groups:
+            pk = [kid(k) for k in flat_keys(pa_)]
+            rec["ms"].append({"out": [kid(k) for k in flat_keys(ch_)], "out2": [kid(k) for k in flat_keys(rs_)], "omitout": omitout,
+                              "keep": omitout + (pk if op == "bind" else []), "parents": pk})
         rec["ntasks"] = len(g2)
         try:
             rec["stage"] = "compute"
-            want = [None] if op == "checkpoint" else list(dask.compute(*children, scheduler="sync"))
-            got = list(dask.compute(*res, scheduler="sync"))
+            want = [None] * len(groups) if op == "checkpoint" else list(dask.compute(*[c for ch_, _, _ in groups for c in ch_], scheduler="sync"))
+            got = list(dask.compute(*allres, scheduler="sync"))
             rec["obs"]["same"] = same_values(want, got)
             if op != "clone":
                 rec["stage"] = "controlled-run"
                 nd2 = needed(g2, out2)
-                waiters = {k for k in nd2 if k not in g and not is_blocker(g2[k])} if op == "bind" else set(out2)
+                waiters = {k for k in nd2 if k not in g and k in g2 and not is_blocker(g2[k])} if op == "bind" else set(out2)
                 ev = controlled_run(g2, out2, waiters)
                 rec["obs"]["events"] = [{"e": e, "k": kid(k)} for e, k in ev]
         except Exception as ex:  # noqa: BLE001
@@ -301,11 +445,11 @@ def run_case(case, kind, seed, assume_layers, split_every, parts=2):
 
 
 def _work(item):
-    i, case, kind, seed, al, se, parts = item
-    rec = run_case(case, kind, seed, al, se, parts)
+    i, case, kind, seed, al, se, parts, nesting = item
+    rec = run_case(case, kind, seed, al, se, parts, nesting)
     rec["id"] = "c%d" % i
     rec["kind"] = kind
-    rec["params"] = [repr(seed), al, repr(se), parts]
+    rec["params"] = [repr(seed), al, repr(se), parts, nesting]
     return rec
 
 
@@ -319,10 +463,10 @@ def classify(case, rec, clause):
         return "%s:assume_layers=False+omit:blockwise" % op
     if op == "bind" and rec["kind"] == "bag" and clause == "Computes":
         return "bind:bag:lazified-reify"
-    return "%s:%s:%s:omit=%s" % (op, rec["kind"], clause, bool(case["omit"]))
+    return "%s%s:%s:%s:omit=%s" % (op, "+second-call" if case.get("second") else "", rec["kind"], clause, bool(case["omit"]))
 
 
-FIELDS = ("id", "op", "g", "g2", "out", "out2", "omitout", "keep", "parents", "obs")
+FIELDS = ("id", "op", "g", "g2", "ms", "obs")
 
 
 def check_cases(ctx, cases, rng, kinds=KINDS):
@@ -331,7 +475,8 @@ def check_cases(ctx, cases, rng, kinds=KINDS):
     items = []
     for i, c in enumerate(cases):
         kind = kinds[i % len(kinds)] if rng.random() < 0.5 else rng.choice(kinds)
-        items.append((i, c, kind, rng.choice([None, 123, "seed"]), rng.random() < 0.6, rng.choice([None, 2, 3, False]), rng.choice([2, 2, 3])))
+        parts = 2 if kind == "array2" else rng.choice([2, 2, 3, 3, 5] if kind in ("bag", "array") else [2, 3])
+        items.append((i, c, kind, rng.choice([None, 123, "seed"]), rng.random() < 0.6, rng.choice([None, 2, 3, False]), parts, rng.choice([0, 0, 1, 2])))
     recs = pmap(_work, items, chunk=30)
     spec, cfg = ctx.model(ctx.spec("graph", "GraphManipTrace.tla"), {})
     for lo in range(0, len(recs), 1500):
@@ -339,16 +484,17 @@ def check_cases(ctx, cases, rng, kinds=KINDS):
         rej = ctx.tlc_validate(spec, [{k: r[k] for k in FIELDS} for r in part], cfg, timeout=1500)
         for r in part:
             case = cases[int(r["id"][1:])]
-            ctx.count((case, r["kind"], r["params"]), case["op"] != "clone" or len(case["regen"]) > 1)
+            ctx.count((case, r["kind"], r["params"]), case["op"] != "clone" or len(case["regen"]) > 1 or bool(case["second"]))
             if r["id"] in rej:
                 clauses = rej[r["id"]][0]
                 cl = clauses.strip('{} "').split('"')[0].split(",")[0] or "Rejected"
                 ctx.violation(classify(case, r, cl),
-                              "dask.graph_manipulation.%s on %s collections %s (children %s, parents %s, omit %s; seed/assume_layers/"
-                              "split_every/partitions %s): TLC rejects the record %s%s"
-                              % (case["op"], r["kind"], case["dag"], case["children"], case["parents"], case["omit"], r["params"], clauses,
+                              "dask.graph_manipulation.%s on %s collections %s (children %s, parents %s, omit %s, second call %s; seed/"
+                              "assume_layers/split_every/partitions/nesting %s): TLC rejects the record %s%s"
+                              % (case["op"], r["kind"], case["dag"], case["children"], case["parents"], case["omit"], case["second"] or "-",
+                                 r["params"], clauses,
                                  (" - %s %s" % (r["obs"]["raised"], r["msg"])) if r["obs"]["raised"] else ""),
-                              {"case": case, "kind": r["kind"], "params": [items[int(r["id"][1:])][k] for k in (3, 4, 5, 6)], "clauses": clauses,
+                              {"case": case, "kind": r["kind"], "params": [items[int(r["id"][1:])][k] for k in (3, 4, 5, 6, 7)], "clauses": clauses,
                                "raised": r["obs"]["raised"], "msg": r["msg"]})
     if recs:
         r = recs[len(recs) // 2]
@@ -361,7 +507,7 @@ def check_cases(ctx, cases, rng, kinds=KINDS):
     return len(ctx.violations) - before
 
 
-INVS = ["RefDenotes", "RefDisjoint", "RefRegenerated", "RefHappensBefore", "RefBindsSomething"]
+INVS = ["RefDenotes", "RefDisjoint", "RefRegenerated", "RefHappensBefore", "RefBindsSomething", "RefSeparate"]
 ALLOPS = '{"clone", "bind", "wait_on", "checkpoint"}'
 
 
@@ -382,7 +528,19 @@ def run(ctx):
     rng = ctx.rng
     cases = enumerate_cases(ctx, 3)
     sampled = False
-    if not ctx.quick:
+    if ctx.quick:
+        # every configuration with two calls sharing a member, and a seeded sample of the single calls
+        double = [c for c in cases if c["second"]]
+        single = [c for c in cases if not c["second"]]
+        cap = 1000
+        if len(double) > cap // 2:
+            double = rng.sample(double, cap // 2)
+            sampled = True
+        if len(single) > cap - len(double):
+            single = rng.sample(single, cap - len(double))
+            sampled = True
+        cases = single + double
+    else:
         # 4 collections: bind has 2 * 10^5 configurations there - clone / wait_on / checkpoint only
         more = enumerate_cases(ctx, 4, '{"clone", "wait_on", "checkpoint"}')
         cap = 5000
@@ -392,17 +550,18 @@ def run(ctx):
         cases = cases + more
     check_cases(ctx, cases, rng)
     ctx.exhaustive = not sampled
-    ctx.rule = ("a case = one configuration (DAG of collections, operation, children/parents/omit) instantiated with one kind of real "
-                "collection and one choice of seed / assume_layers / split_every / partitions; non-trivial = the operation has to touch "
-                "more than one task layer or orders tasks; distinct by (configuration, kind, parameters)")
+    ctx.rule = ("a case = one configuration (DAG of collections, operation, children/parents/omit, optionally a second call sharing a "
+                "member) instantiated with one kind of real collection and one choice of seed / assume_layers / split_every / partitions "
+                "/ argument nesting; non-trivial = the operation has to touch more than one task layer or orders tasks; distinct by "
+                "(configuration, kind, parameters)")
     ctx.assumptions = ["uninterpreted task functions: equal terms mean equal values", "graph ancestry implies execution order (C02)",
                        "one adversarial schedule per bound graph, not all schedules"]
 
 
 def replay(ctx, obj):
     c = obj["case"]
-    seed, al, se, parts = c["params"]
-    rec = run_case(c["case"], c["kind"], seed, al, se, parts)
+    seed, al, se, parts, nesting = (list(c["params"]) + [0])[:5]
+    rec = run_case(c["case"], c["kind"], seed, al, se, parts, nesting)
     rec["id"] = "c0"
     spec, cfg = ctx.model(ctx.spec("graph", "GraphManipTrace.tla"), {})
     rej = ctx.tlc_validate(spec, [{k: rec[k] for k in FIELDS}], cfg)
@@ -426,8 +585,9 @@ def selftest(ctx):
     rdir = os.path.join(os.path.dirname(os.path.dirname(os.path.dirname(os.path.abspath(__file__)))), "replays")
     before = set(glob.glob(os.path.join(rdir, "C16-*.json")))
     cases = enumerate_cases(ctx, 3)
-    cases = random.Random(3).sample(cases, min(len(cases), 220))
-    kinds = ("legacy", "bag", "array")
+    r3 = random.Random(3)
+    cases = r3.sample([c for c in cases if not c["second"]], 170) + r3.sample([c for c in cases if c["second"]], 110)
+    kinds = ("legacy", "bag", "array", "array_delayed", "delayed")
 
     def attempt(name):
         n = check_cases(ctx, cases, random.Random(5), kinds)
@@ -462,21 +622,39 @@ def selftest(ctx):
         ok &= attempt("clone_key-identity")
     finally:
         GM.clone_key, HLG.clone_key, BW.clone_key = saved
+    # mutant 5: the layers of wait_on are named after the collection alone, not after the group it waits for
+    with source_mutant(GM, "wait_on", "tok = tokenize(coll, blocker)", "tok = tokenize(coll)"):
+        ok &= attempt("wait_on-name-ignores-the-group")
+    # mutant 6: Blockwise.clone forgets the references to non-array arguments (TaskRef indices)
+    import inspect
+    import textwrap
+    src = textwrap.dedent(inspect.getsource(BW.Blockwise.clone))
+    anchor = "elif isinstance(k, TaskRef) and k.key in names:"
+    if src.count(anchor) != 1:
+        raise MachineryError("mutant anchor not found in Blockwise.clone")
+    ns = {}
+    exec(compile(src.replace(anchor, "elif False:"), "<mutant Blockwise.clone>", "exec"), BW.__dict__, ns)
+    orig_bclone = BW.Blockwise.clone
+    BW.Blockwise.clone = ns["clone"]
+    try:
+        ok &= attempt("blockwise-clone-forgets-taskref-arguments")
+    finally:
+        BW.Blockwise.clone = orig_bclone
     # binding of the trace spec: untouched accepted; a parent's finish moved behind a child's start, and an
     # output key of the result replaced by the original one, are rejected
-    case = [c for c in cases if c["op"] == "bind" and len(c["parents"]) >= 1 and not c["omit"]][0]
+    case = [c for c in cases if c["op"] == "bind" and len(c["parents"]) >= 1 and not c["omit"] and not c["second"]][0]
     rec = run_case(case, "legacy", 1, True, None, 2)
     rec["id"] = "ok"
     base = {k: rec[k] for k in FIELDS}
     bad1 = copy.deepcopy(base)
     bad1["id"] = "order"
     ev = bad1["obs"]["events"]
-    pk = bad1["parents"][0]
+    pk = bad1["ms"][0]["parents"][0]
     fin = [i for i, e in enumerate(ev) if e["e"] == "finish" and e["k"] == pk][0]
     ev.append(ev.pop(fin))
     bad2 = copy.deepcopy(base)
     bad2["id"] = "key"
-    bad2["out2"][0] = bad2["out"][0]
+    bad2["ms"][0]["out2"][0] = bad2["ms"][0]["out"][0]
     spec, cfg = ctx.model(ctx.spec("graph", "GraphManipTrace.tla"), {})
     rej = ctx.tlc_validate(spec, [base, bad1, bad2], cfg)
     print("untouched record: %s; parent finish moved to the end: %s; output key replaced by the original: %s"
